@@ -689,13 +689,16 @@ where
             return Vec::new();
         };
         if let Some(meta) = metadata.get(archive_id) {
-            let end = offset + u64::from(length);
+            // ends are computed in u128: a range that reaches u64::MAX must not overflow
+            let start = u128::from(offset);
+            let end = start + u128::from(length);
             meta.cached_ranges
                 .iter()
                 .filter(|(r_offset, r_length)| {
-                    let r_end = r_offset + u64::from(*r_length);
+                    let r_start = u128::from(*r_offset);
+                    let r_end = r_start + u128::from(*r_length);
                     // Check for overlap
-                    *r_offset < end && offset < r_end
+                    r_start < end && start < r_end
                 })
                 .copied()
                 .collect()
